@@ -221,7 +221,7 @@ package gomatrixserverlib
 //@ func GetRoomVersion
 //@   trusted
 //@   ensures known: (err == nil) <==> verKnown(verStr)
-//@   ensures impl: err == nil ==> (impl != nil && ref(impl) == verImplRef(verStr) && impl.Version() == verStr && impl.PrivilegedCreators() == verPrivileged(verStr))
+//@   ensures impl: err == nil ==> (impl != nil && ref(impl) == verImplRef(verStr) && impl.Version() == verStr && impl.PrivilegedCreators() == verPrivileged(verStr) && ((impl.CheckRestrictedJoinsAllowed() == nil) <==> verRestricted(verStr)))
 //@   assigns nothing
 
 //@ func MustGetRoomVersion
@@ -430,6 +430,22 @@ package gomatrixserverlib
 //@   property C17
 //@   nosafety
 //@   ensures table.count: len(roomVersionMeta) == 16
+//@   ensures table.1.lenient-byte-limit: "1" in lenientByteLimitRoomVersions
+//@   ensures table.2.lenient-byte-limit: "2" in lenientByteLimitRoomVersions
+//@   ensures table.3.lenient-byte-limit: "3" in lenientByteLimitRoomVersions
+//@   ensures table.4.lenient-byte-limit: "4" in lenientByteLimitRoomVersions
+//@   ensures table.5.lenient-byte-limit: "5" in lenientByteLimitRoomVersions
+//@   ensures table.6.lenient-byte-limit: "6" in lenientByteLimitRoomVersions
+//@   ensures table.7.lenient-byte-limit: "7" in lenientByteLimitRoomVersions
+//@   ensures table.8.lenient-byte-limit: "8" in lenientByteLimitRoomVersions
+//@   ensures table.9.lenient-byte-limit: "9" in lenientByteLimitRoomVersions
+//@   ensures table.10.lenient-byte-limit: "10" in lenientByteLimitRoomVersions
+//@   ensures table.11.lenient-byte-limit: "11" in lenientByteLimitRoomVersions
+//@   ensures table.12.lenient-byte-limit: "12" in lenientByteLimitRoomVersions
+//@   ensures table.org.matrix.msc3667.lenient-byte-limit: "org.matrix.msc3667" in lenientByteLimitRoomVersions
+//@   ensures table.org.matrix.msc3787.lenient-byte-limit: "org.matrix.msc3787" in lenientByteLimitRoomVersions
+//@   ensures table.org.matrix.msc4014.lenient-byte-limit: "org.matrix.msc4014" in lenientByteLimitRoomVersions
+//@   ensures table.org.matrix.hydra.11.lenient-byte-limit: "org.matrix.hydra.11" in lenientByteLimitRoomVersions
 //@   ensures table.1.present: "1" in roomVersionMeta
 //@   ensures table.1.ver: roomVersionMeta["1"].(RoomVersionImpl).ver == "1"
 //@   ensures table.1.stable: roomVersionMeta["1"].(RoomVersionImpl).stable == true
@@ -766,3 +782,59 @@ package gomatrixserverlib
 //@   ensures table.org.matrix.hydra.11.newEventFromUntrustedJSONFunc: roomVersionMeta["org.matrix.hydra.11"].(RoomVersionImpl).newEventFromUntrustedJSONFunc == newEventFromUntrustedJSONV3
 //@   ensures table.org.matrix.hydra.11.newEventFromTrustedJSONFunc: roomVersionMeta["org.matrix.hydra.11"].(RoomVersionImpl).newEventFromTrustedJSONFunc == newEventFromTrustedJSONV3
 //@   ensures table.org.matrix.hydra.11.newEventFromTrustedJSONWithEventIDFunc: roomVersionMeta["org.matrix.hydra.11"].(RoomVersionImpl).newEventFromTrustedJSONWithEventIDFunc == newEventFromTrustedJSONWithEventIDV3
+
+//@ func (RoomVersionImpl).PrivilegedCreators
+//@   property C17
+//@   ensures field: result == v.privilegedCreators
+//@   assigns nothing
+
+//@ func (RoomVersionImpl).DomainlessRoomIDs
+//@   property C17
+//@   ensures field: result == v.domainlessRoomID
+//@   assigns nothing
+
+//@ func (RoomVersionImpl).Version
+//@   property C17
+//@   ensures field: result == v.ver
+//@   assigns nothing
+
+//@ func (RoomVersionImpl).StateResAlgorithm
+//@   property C17
+//@   ensures field: result == v.stateResAlgorithm
+//@   assigns nothing
+
+//@ func (RoomVersionImpl).EventFormat
+//@   property C17
+//@   ensures field: result == v.eventFormat
+//@   assigns nothing
+
+//@ func (RoomVersionImpl).EventIDFormat
+//@   property C17
+//@   ensures field: result == v.eventIDFormat
+//@   assigns nothing
+
+//@ func (RoomVersionImpl).Stable
+//@   property C17
+//@   ensures field: result == v.stable
+//@   assigns nothing
+
+//@ func checkID
+//@   property C17
+//@   ensures ok: (err == nil) <==> (indexByte(id, ':') >= 0 && id[0] == sigil && runeCount(id) <= 255 && len(id) <= 255)
+//@   ensures code-points: (indexByte(id, ':') >= 0 && id[0] == sigil && runeCount(id) > 255) ==> tooLargeHard(err)
+//@   ensures bytes: (indexByte(id, ':') >= 0 && id[0] == sigil && runeCount(id) <= 255 && len(id) > 255) ==> tooLargeLenient(err, true)
+//@   assigns nothing
+
+//@ func CheckFields
+//@   property C17
+//@   requires input != nil
+//@   ensures json-size: (input.AuthEventIDs() != nil && input.PrevEventIDs() != nil && len(input.JSON()) > 65536) ==> tooLargeHard(err)
+//@   ensures type-code-points: err == nil ==> runeCount(input.Type()) <= 255
+//@   ensures type-bytes: err == nil ==> len(input.Type()) <= 255
+//@   ensures state-key-code-points: (err == nil && input.StateKey() != nil) ==> runeCount(*input.StateKey()) <= 255
+//@   ensures state-key-bytes: (err == nil && input.StateKey() != nil) ==> len(*input.StateKey()) <= 255
+//@   ensures sender: (err == nil && string(input.Version()) != "org.matrix.msc4014") ==> (runeCount(string(input.SenderID())) <= 255 && len(string(input.SenderID())) <= 255 && string(input.SenderID())[0] == 64)
+//@   ensures json-bytes: err == nil ==> len(input.JSON()) <= 65536
+//@   ensures refused-type: (input.AuthEventIDs() != nil && input.PrevEventIDs() != nil && len(input.JSON()) <= 65536 && runeCount(input.Type()) > 255) ==> tooLargeHard(err)
+//@   ensures lenient-type: (input.AuthEventIDs() != nil && input.PrevEventIDs() != nil && len(input.JSON()) <= 65536 && runeCount(input.Type()) <= 255 && (input.StateKey() == nil || runeCount(*input.StateKey()) <= 255) && len(input.Type()) > 255) ==> (err != nil && isType(err, EventValidationError) && err.(EventValidationError).Code == 1)
+//@   assigns nothing
